@@ -315,6 +315,10 @@ int apply_low (const char *fun, object_t * ob, int num_arg) {
           apply_low_collisions++;
         }
 #endif
+      /* The slot is refilled further down, but push_control_stack() can raise
+       * "Too deep recursion" before that: never leave the freed name behind. */
+      entry->id = 0;
+      entry->name = 0;
       sfun = (char *) fun;
       prog = find_function_by_name2 (ob, &sfun, &index, &fio, &vio);
 
